@@ -18,7 +18,7 @@
 //!     step   = <size> take that many bytes as one data frame | p Pending
 //!              (for `h2` cases the steps are the fragment sizes of the byte pipe, cyclically)
 //!     status = <code> <msg> <details> <hmap>
-//! Observed:
+//! Observed (after a summary token `K=<handler got>/<client got>`):
 //!   SEEN notcalled | SEEN unary <rhmap> <msg> | SEEN stream <rhmap> <k> <msg>*k open|done|err <rstatus>
 //!   CLIENT err <rstatus> | CLIENT single <rhmap> <msg> | CLIENT hang
 //!        | CLIENT stream <rhmap> <k> <msg>*k ok|err <rstatus> TR none|<rhmap>
@@ -759,8 +759,28 @@ fn exec_inproc(case: Case) -> String {
             Err(_) => "CLIENT hang".to_string(),
         };
         let s = seen.lock().unwrap().clone();
-        format!("SEEN {} {}", s, client)
+        summarise(&s, &client)
     })
+}
+
+/// `K=<what the handler got>/<what the client got>`: a summary token put first so that the
+/// evidence's distribution by observed class is informative
+fn summarise(seen: &str, client: &str) -> String {
+    let sw: Vec<&str> = seen.split(' ').collect();
+    let sk = match sw[0] {
+        "stream" => format!("stream-{}", if sw.contains(&"err") { "err" } else { sw[sw.len() - 1] }),
+        other => other.to_string(),
+    };
+    let cw: Vec<&str> = client.split(' ').collect();
+    let ck = match cw.get(1).copied().unwrap_or("?") {
+        "stream" => {
+            let tr = cw.iter().position(|x| *x == "TR").unwrap_or(cw.len());
+            format!("stream-{}", if cw[..tr].contains(&"err") { "err" } else { "ok" })
+        }
+        "err" => format!("err{}", cw.get(2).copied().unwrap_or("")),
+        other => other.to_string(),
+    };
+    format!("K={}/{} SEEN {} {}", sk, ck, seen, client)
 }
 
 // ---------------------------------------------------------------------------------------------
@@ -881,8 +901,8 @@ fn exec_h2(case: Case) -> String {
         let endpoint = tonic::transport::Endpoint::from_static("http://verif.test");
         let channel = match tokio::time::timeout(Duration::from_secs(30), endpoint.connect_with_connector(connector)).await {
             Ok(Ok(ch)) => ch,
-            Ok(Err(e)) => return format!("SEEN notcalled CLIENT connect-failed {}", format!("{:?}", e).replace(' ', "_")),
-            Err(_) => return "SEEN notcalled CLIENT hang".to_string(),
+            Ok(Err(e)) => return format!("K=notcalled/connect-failed SEEN notcalled CLIENT connect-failed {}", format!("{:?}", e).replace(' ', "_")),
+            Err(_) => return "K=notcalled/hang SEEN notcalled CLIENT hang".to_string(),
         };
         // hyper's server adds `date`; it is not part of what tonic or the handler sent
         let client = match tokio::time::timeout(Duration::from_secs(60), client_call(&case, channel, &["date"])).await {
@@ -893,7 +913,7 @@ fn exec_h2(case: Case) -> String {
             let _ = s.send(());
         }
         let s = seen.lock().unwrap().clone();
-        format!("SEEN {} {}", s, client)
+        summarise(&s, &client)
     })
 }
 
